@@ -21,6 +21,7 @@ import (
 func init() {
 	register(&Prop{ID: "C14", Run: runC14, Procs: true, Replay: map[string]func(*mc.Ctx, json.RawMessage){
 		"encode":  replayer(c14EvalEncode),
+		"encseq":  replayer(c14EvalEncSeq),
 		"reduce":  replayer(c14EvalReduce),
 		"block":   replayer(c14EvalBlock),
 		"builder": replayer(c14EvalBuilder),
@@ -817,4 +818,5 @@ func runC14(c *mc.Ctx) {
 		})
 	}
 	c.Sample("builder", c14Bld{Ctor: "WithKey", Ops: []string{"AddEntry:a", "SetP:33", "Build"}})
+	runC14Seq(c)
 }
